@@ -530,7 +530,7 @@ def rgb_to_hsl(rgb_color):
         h = 0
         s = 0
     else:
-        s = diff / (1 - abs(2 * l - 1))
+        s = min(1.0, diff / (1 - abs(2 * l - 1)))
 
         if mx == r:
             h = (g - b) / diff % 6
